@@ -908,6 +908,7 @@ type c15E2Case struct {
 	Len   int    `json:"len"`
 	Write string `json:"write"`
 	Read  []int  `json:"read"`
+	Copy  string `json:"copy"`
 	Seed  int64  `json:"seed"`
 	Class string `json:"class"`
 }
@@ -942,6 +943,12 @@ func c15E2Plan(r *core.Run) []c15E2Case {
 		c.Class = fmt.Sprintf("e2|%s|%s|w:%s|r:%d|%s", kind, topo, write, rb, sizeClass(n))
 		out = append(out, c)
 	}
+	addCopy := func(topo string, n int, write, mode string, read ...int) {
+		add("prefix-then-"+mode, topo, n, write, read...)
+		c := &out[len(out)-1]
+		c.Copy = mode
+		c.Class += "|" + mode
+	}
 	reps := r.Pick(1, 6)
 	for k := 0; k < reps; k++ {
 		jit := 0
@@ -960,7 +967,15 @@ func c15E2Plan(r *core.Run) []c15E2Case {
 			add("large-write", topo, 1<<20+1+jit, "one", 65536)
 			add("large-write", topo, 4<<20+jit, "one", 1024)
 			add("duplex", topo, 2<<20+jit, "rand", 1024)
+			// a parser-style reader: a few small Reads (or a bufio.Reader) leave a partly consumed
+			// message behind, then io.Copy / WriteTo takes over on the same connection
+			addCopy(topo, 200000+jit, "rand", "copy", 4)
+			addCopy(topo, 100000+jit, "1000", "copy", 1, 2, 3)
+			addCopy(topo, 150000+jit, "rand", "bufio", 5)
+			addCopy(topo, 70000+jit, "one", "copy", 7)
 		}
+		addCopy("rawserver", 100000+jit, "rand", "copy", 4)
+		addCopy("rawserver", 100000+jit, "1000", "bufio", 9)
 		add("raw-client-frames", "rawclient", 1000+jit, "rand")
 		add("raw-client-frames", "rawclient", 100000+jit, "rand")
 		add("raw-client-frames", "rawclient", 1<<20+jit, "rand")
@@ -1032,7 +1047,7 @@ func c15E2(r *core.Run, bin string) {
 
 // C15 — the TCP bridge carries byte streams intact in both directions.
 func C15(r *core.Run) {
-	r.SetRule("E1: harness TCP clients -> real tcp-bridge-frontend -> real tcp-bridge-backend -> harness TCP server, rounds of 1/4/16/48 concurrent connections, both directions at once, each direction an independent stream header+PRNG(seed,conn,dir) written with sizes {1,2,1023,1024,1025,4096,32768,65537,random} and read with buffers {1,7,1024,65536}; every read is compared with the regenerated stream (prefix), length+SHA-256 at the end; plus one connection per direction whose receiver stalls 13-14 s while 32-48 MiB are pushed at it (flow control must hold the sender, every byte must arrive) and a connection that lives 32 s (thorough: both directions, also 63 s) with a trickling receiver so that data is in flight all the time; class = (concurrency, who speaks first, per direction write size/read buffer/length class). Passthrough: grammar-generated requests of C02 plus websocket upgrades on other paths / plain and other-protocol requests on the streaming path through the backend binary to a raw recording backend under the request fidelity oracle. E2: connection.Handler/DialWebsocket/WebsocketNetConn in-process with empty writes, 1-byte reads, raw gorilla peers interleaving binary/ping/pong frames, single writes up to 16 MiB")
+	r.SetRule("E1: harness TCP clients -> real tcp-bridge-frontend -> real tcp-bridge-backend -> harness TCP server, rounds of 1/4/16/48 concurrent connections, both directions at once, each direction an independent stream header+PRNG(seed,conn,dir) written with sizes {1,2,1023,1024,1025,4096,32768,65537,random} and read with buffers {1,7,1024,65536}; every read is compared with the regenerated stream (prefix), length+SHA-256 at the end; plus one connection per direction whose receiver stalls 13-14 s while 32-48 MiB are pushed at it (flow control must hold the sender, every byte must arrive) and a connection that lives 32 s (thorough: both directions, also 63 s) with a trickling receiver so that data is in flight all the time; class = (concurrency, who speaks first, per direction write size/read buffer/length class). Passthrough: grammar-generated requests of C02 plus websocket upgrades on other paths / plain and other-protocol requests on the streaming path through the backend binary to a raw recording backend under the request fidelity oracle. E2: connection.Handler/DialWebsocket/WebsocketNetConn in-process with empty writes, 1-byte reads, raw gorilla peers interleaving binary/ping/pong frames, small Reads followed by io.Copy / bufio.Reader.WriteTo on the same connection, single writes up to 16 MiB")
 	r.Assume("passthrough: well-formed requests only (C02 generator); hop-by-hop fields are legitimately removed, upgrade requests keep Connection/Upgrade; X-Forwarded-For may gain the proxy's client address after the sender's values; only HTTP/1.1 towards the backend binary (h2c not exercised)")
 	r.Assume("a stream that stops making progress for 20 s (E1) / 10 s (E2) counts only if the same connection plan stalls again when re-run alone")
 	bins := bridgeBuild(r)
